@@ -5,6 +5,14 @@
 // independently.
 #include "c20_containers.cpp"
 
+// banded apply kernels (state the band-offset relation col = row + offset + 1 - rows): instantiate by address
+void c02_inst_banded_kernels()
+{
+  auto k1 = &Arch::Apply::template banded_generic<DT, IT>;
+  auto k2 = &Arch::Apply::template banded_transposed_generic<DT, IT>;
+  (void)k1; (void)k2;
+}
+
 void c02_inst_mixed()
 {
   {
